@@ -50,7 +50,8 @@ def hist_to_script(h, k):
             if b:
                 ops.append(["embed", 0, b])
         elif kind == 1:
-            ops.append(["new", "s%d" % sid, a, o])
+            # names of length 2..35, sharing prefixes with each other
+            ops.append(["new", ("n%d" % sid) + "y" * ((k * 7 + sid * 5) % 34), a, o])
             if b:
                 ops.append(["embed", sid, b])
             if v:
@@ -73,6 +74,9 @@ FIXED_SCRIPTS = [
     {"ops": [["embed", 0, 3], ["new", "first?", 16, -MAXINT - 1], ["embed", 1, 5], ["new", ".text", 2, -MAXINT - 1], ["embed", 2, 1]]},
     {"ops": [["new", "x" * 35, 65536, 1], ["embed", 1, 16], ["new", "x" * 36, 8, 0], ["new", "x" * 35, 4096, 1], ["vsize", 2, 3], ["embed", 0, 1]]},
     {"ops": []},
+    # names: prefixes of each other, duplicates, maximal length, looked up after further sections / the table were created
+    {"ops": [["new", "a", 1, 0], ["new", "ab", 1, 0], ["new", "abc", 2, 0], ["new", "a", 4, 1], ["new", "x" * 35, 1, 0],
+             ["new", "x" * 34, 1, 0], ["embed", 1, 3], ["far", 0, 1, 0], ["new", ".addrtab", 1, 0], ["new", "", 1, 0]]},
 ]
 
 
@@ -144,12 +148,13 @@ def validate_shard(ctx, path, tag, strict=False, timeout=1500):
         ctx.states += r.distinct
         ctx.transitions += r.generated
     rej = []
-    for ln in r.out.splitlines():
-        m = re.match(r'<<"REJ", (\d+), "(\w+)", \{(.*)\}>>', ln)
-        if m:
-            item = (int(m.group(1)), m.group(2), tuple(sorted(x.strip().strip('"') for x in m.group(3).split(",") if x.strip())))
-            if item not in rej:
-                rej.append(item)
+    for v in vlib.parse_beh(r.out, "REJ"):            # <<"REJ", line, event, "{reasons}">> (possibly wrapped by TLC)
+        item = (int(v[0]), v[1], tuple(sorted(re.findall(r'"([^"]+)"', v[2]))))
+        if item not in rej:
+            rej.append(item)
+    printed = len(re.findall(r'"REJ",', r.out))
+    if printed and not rej or len(rej) > printed:
+        raise Broken(f"cannot parse the rejections printed by TLC ({tag}: {printed} printed, {len(rej)} parsed)")
     return rej, r
 
 
@@ -202,7 +207,7 @@ def classify(ctx, execs, rejected, tag, summary):
         groups.setdefault(signature(ev, why), []).append((xi, idx, ev, why))
     for sig, items in sorted(groups.items()):
         # smallest execution first: the most readable witness
-        items.sort(key=lambda it: (len(describe(execs[it[0]])), len(execs[it[0]])))
+        items.sort(key=lambda it: (len(describe(execs[it[0]])), it[0]))
         xi, idx, ev, why = items[0]
         rp = ctx.path(f"{tag}_rejected_{re.sub(r'[^a-z0-9]+', '_', sig)}.ndjson")
         vlib.write_ndjson(rp, execs[xi])
@@ -214,10 +219,11 @@ def classify(ctx, execs, rejected, tag, summary):
             raise Broken(f"strict validation of {rp} failed to run: kind={r2.kind} rc={r2.rc}\n" + "\n".join(r2.out.splitlines()[-25:]))
         bad = execs[xi][idx] if idx < len(execs[xi]) else {"e": "EOF"}
         cfg = fmt_cfg(describe(execs[xi]))
-        what = f"{len(items)} execution(s) rejected at {ev} [{', '.join(why)}]; smallest: sections={cfg} event={json.dumps(bad)[:260]}"
-        summary.append({"signature": sig, "count": len(items), "witness": cfg, "replay": rp})
+        nx = len({it[0] for it in items})
+        what = f"{nx} execution(s) rejected at {ev} [{', '.join(why)}]; smallest: sections={cfg} event={json.dumps(bad)[:260]}"
+        summary.append({"signature": sig, "executions": nx, "witness": cfg, "replay": rp})
         if sig in ctx.known:
-            ctx.known_finding(sig, ctx.known[sig] + f" -- still fails: {len(items)} execution(s), smallest sections={cfg} ({rp})")
+            ctx.known_finding(sig, ctx.known[sig] + f" -- still fails: {nx} execution(s), smallest sections={cfg} ({rp})")
         else:
             ctx.violation(what, rp)
 
@@ -240,7 +246,7 @@ def run(ctx):
                 ("d_copy", dict(max_user=2, copy=True, **small), 4),
                  ("d_three", dict(max_user=3, aligns="AlignsStd", bufs="BufsSmall", vsizes="VSizesStd", text="TextSmall"), 12),
                  ("d_four", dict(max_user=4, **small), 12),
-                 ("d_copy3", dict(max_user=3, at="ATStd", copy=True, **tiny), 8)]
+                 ("d_copytab", dict(max_user=2, at="ATStd", copy=True, **tiny), 8)]
     nsim = 1500 if q else 30000
     jobs = [(name, kw, w, {}) for name, kw, w in runs]
     # the algorithm exactly as written in the pinned tree (every section becomes `prev`): a hint, not a verdict
@@ -334,9 +340,11 @@ def run(ctx):
         "bytes nobody asked to be zeroed may be left as they were or zeroed; a second flatten() is not judged (documented as unsupported)",
         "plain (unsanitised) build: UBSan stops the pinned tree at memcpy(dst, nullptr, 0) for empty sections (codeholder.cpp:1357), "
         "which is not part of this property; 256 guard cells on both sides of every destination replace the redzones",
+        "section names: name() must read back as given and section_by_name() must find a section carrying the name (any of them for "
+        "duplicates); the harness makes malloc return non-zero memory first, as the arena does not clear its blocks",
         "allocation never fails in this check (failure is C15)"]
     vlib.write_evidence(ctx, "model_checking",
-        rule="events = API calls executed on real CodeHolders (new_section/embed/set_virtual_size/far jmp+call/code_size/flatten/"
+        rule="events = API calls executed on real CodeHolders (new_section/section_by_name/embed/set_virtual_size/far jmp+call/code_size/flatten/"
              "copy_flattened_data/copy_section_data/relocate_to_base), each judged by the contract; distinct = distinct section tables "
              "(alignment, order, buffer size, virtual size per section) plus distinct (table, destination size, flags, result) copies; "
              "tables = all LayoutImpl configurations with <=2 user sections over a reduced domain + TLC-simulated tables with <=4 user "
